@@ -28,35 +28,23 @@ Theorem C20_main_safe_plain : forall (V : Type) (s : sig V),
 Proof. exact (@main_safe_when_plain). Qed.
 Print Assumptions C20_main_safe_plain.
 
-(* ... and after the candidate fix (nothing bogus forwarded) bool parameters are covered *)
+(* ... and when nothing bogus is forwarded bool parameters are covered *)
 Theorem C20_main_safe_when_fixed : forall (V : Type) (s : sig V),
   main_bogus facts_gen = [] -> existsb (fun p => has_def p && p_mut p) s = false -> main_safe facts_gen s = true.
 Proof. exact (@main_safe_when_nothing_bogus). Qed.
 Print Assumptions C20_main_safe_when_fixed.
 
-(* defect #18 as a regenerated fact: main forwards `name=` to helpers.field, which is not one of its named parameters, so it
-   lands in custom_args and reaches BooleanOptionalAction.__init__, which refuses it.  (This one-line theorem, and the two
-   that use it, are the only ones that stop holding when `name=name` is dropped from decorators.py.) *)
-Theorem C20_defect18_name_forwarded : main_bogus facts_gen = ["name"].
+(* defect #18 repaired (fix: commit in /repo): main forwards nothing to helpers.field beyond its named parameters.  If `name=` (or any
+   other stray keyword) is ever forwarded again this regenerated fact, and with it bool parameters' coverage, stops holding. *)
+Theorem C20_nothing_bogus_forwarded : main_bogus facts_gen = [].
 Proof. exact eq_refl. Qed.
-Print Assumptions C20_defect18_name_forwarded.
+Print Assumptions C20_nothing_bogus_forwarded.
 
-(* hence the full-strength statement (without main_safe) is FALSE of the faithful model: `def f(flag: bool = False)` *)
-Theorem C20_main_refuted : exists (s : sig string) (vals : string -> string),
-  sig_wf s = true /\
-  ~ (let c := main_call facts_gen s vals [] [] in
-     main_run facts_gen s (Ok vals) [] [] = (Some c, Ok (map (fun p => (p_name p, vals (p_name p))) s))
-     /\ c_pos c = map (fun p => vals (p_name p)) (filter is_po s)
-     /\ Permutation (c_kw c) (map (fun p => (p_name p, vals (p_name p))) (filter (fun p => negb (is_po p)) s))
-     /\ Permutation (main_fields facts_gen s) (map (main_field facts_gen) s)
-     /\ order_ok false (main_fields facts_gen s) = true).
-Proof. exact (main_refuted_bool_if "name" [] C20_defect18_name_forwarded). Qed.
-Print Assumptions C20_main_refuted.
-Theorem C20_main_refuted_witness :
-  main_run facts_gen [mkparam "flag" PosOrKw ABool (Some "false") false] (Ok (fun _ => "false")) [] []
-  = (None, Err (Raise "TypeError")).
-Proof. exact (main_bool_outcome_if "name" [] (fun _ => "false") C20_defect18_name_forwarded). Qed.
-Print Assumptions C20_main_refuted_witness.
+(* hence parameters of any supported type INCLUDING bool are inside C20_main_partial's domain *)
+Theorem C20_main_safe_incl_bool : forall (V : Type) (s : sig V),
+  existsb (fun p => has_def p && p_mut p) s = false -> main_safe facts_gen s = true.
+Proof. exact (fun V s => @main_safe_when_nothing_bogus V s C20_nothing_bogus_forwarded). Qed.
+Print Assumptions C20_main_safe_incl_bool.
 
 (* second, independent counterexample: an unhashable default, `def f(xs: List[int] = [1, 2])` *)
 Theorem C20_main_refuted_mutable_default :
